@@ -15,8 +15,11 @@ ID = "C06"
 LEVEL = "exploration"
 RULE = ("complete enumeration of (response class, outcome) with outcome in {None, BackwardFrame(v), "
         "BackwardFrameError(v) : v in 0..255}; non-trivial = outcome is not None (a frame was received); "
-        "plus (bitmap class, bit name, value) and (class, illegal constructor argument)")
+        "plus (bitmap class, bit name, value), (class, illegal constructor argument) and (command, answer 255) "
+        "for the commands whose answer the standard defines as level-or-MASK / as a plain number")
 ASSUMPTIONS = [
+    "MASK_AWARE / PLAIN_NUMBER command lists are transcribed from IEC 62386-102/-103/-202 answer definitions; only "
+    "commands whose answer definition is unambiguous are pinned",
     "kind of a response class is taken from its base class (YesNoResponse, NumericResponseMask, NumericResponse, "
     "BitmapResponse, EnumResponse, otherwise generic)",
     "str() of an enumerated response holding an undefined code may raise ValueError (the statement allows the "
@@ -72,6 +75,8 @@ def make_outcome(frame, oc):
 
 def run_case(case):
     command, frame, exc = _load()
+    if case.get("op") == "association":
+        return association_case(case)
     classes = response_classes()
     if case["cls"] not in classes:
         return [("C06:response-class-missing", "%s is no longer a response of any command" % case["cls"])]
@@ -165,6 +170,21 @@ def run_case(case):
             exp = [b for i, b in enumerate(names) if b and (v >> i) & 1]
             if sraised is not None or st != exp:
                 out.append(("C06:bitmap-status", "%s: status %r raised %r, expected %r" % (where, st, sraised, exp)))
+            elif isinstance(st, list):
+                # what a caller does with the list it was handed must not change what this or any other
+                # response of the same frame reports afterwards
+                st.append("verif-junk")
+                if st and st[0] != "verif-junk":
+                    st[0] = "verif-junk-0"
+                try:
+                    again = r.status
+                    other = r_cls(frame.BackwardFrame(v)).status
+                except Exception as e:  # noqa
+                    again = other = "raised %r" % (e,)
+                if again != exp or other != exp:
+                    out.append(("C06:bitmap-status-shared-with-caller",
+                                "%s: after the caller edited the returned list, status is %r / a fresh response of "
+                                "the same frame reports %r, expected %r" % (where, again, other, exp)))
         else:
             if sraised is None and isinstance(st, list) and any(x in legal_names for x in st):
                 out.append(("C06:bitmap-status-fault", "%s: status %r although no clean frame" % (where, st)))
@@ -243,14 +263,17 @@ def base_of_str(r_cls):
     return r_cls.__name__
 
 
-BAD_ARGS = ["int", "str", "bytes", "frame8", "forward16", "list", "object", "float", "true"]
+BAD_ARGS = ["int", "str", "bytes", "frame8", "forward16", "list", "object", "float", "true", "response",
+            "response-none", "response-same-class", "tuple", "backward-class"]
 
 
 def case_ctor(r_cls, case):
     command, frame, exc = _load()
     arg = {"int": 5, "str": "wibble", "bytes": b"\x05", "frame8": frame.Frame(8, 5),
            "forward16": frame.ForwardFrame(16, 5), "list": [5], "object": object(), "float": 5.0,
-           "true": True}[case["arg"]]
+           "true": True, "response": command.Response(frame.BackwardFrame(5)),
+           "response-none": command.Response(None), "response-same-class": r_cls(frame.BackwardFrame(5)),
+           "tuple": (frame.BackwardFrame(5),), "backward-class": frame.BackwardFrame}[case["arg"]]
     try:
         r = r_cls(arg)
     except Exception:  # noqa
@@ -258,7 +281,71 @@ def case_ctor(r_cls, case):
     return [("C06:constructor-accepts-non-frame", "%s(%r) was accepted" % (r_cls.__name__, arg))]
 
 
+# "255 reads as MASK where the standard says so": transcribed from IEC 62386-102:2014 11.5 / 9.x and -202:2009
+# (answers defined as a level or MASK), and the converse for answers in which 255 is an ordinary number
+MASK_AWARE = [
+    ("dali.gear.general", "QueryActualLevel"), ("dali.gear.general", "QueryPowerOnLevel"),
+    ("dali.gear.general", "QuerySystemFailureLevel"), ("dali.gear.general", "QuerySceneLevel"),
+    ("dali.gear.emergency", "QueryEmergencyLevel"), ("dali.gear.emergency", "QueryBatteryCharge"),
+]
+PLAIN_NUMBER = [
+    ("dali.gear.general", "QueryContentDTR0"), ("dali.gear.general", "QueryContentDTR1"),
+    ("dali.gear.general", "QueryContentDTR2"), ("dali.device.general", "QueryContentDTR0"),
+    ("dali.device.general", "QueryContentDTR1"), ("dali.device.general", "QueryContentDTR2"),
+    ("dali.device.general", "QueryRandomAddressH"), ("dali.device.general", "QueryRandomAddressM"),
+    ("dali.device.general", "QueryRandomAddressL"), ("dali.device.general", "ReadMemoryLocation"),
+    ("dali.device.general", "QueryDeviceGroupsZeroToSeven"), ("dali.device.general", "QueryDeviceGroupsEightToFifteen"),
+    ("dali.device.general", "QueryDeviceGroupsSixteenToTwentyThree"),
+    ("dali.device.general", "QueryDeviceGroupsTwentyFourToThirtyOne"),
+    ("dali.device.general", "QueryEventFilterZeroToSeven"), ("dali.device.general", "QueryEventFilterEightToFifteen"),
+    ("dali.device.general", "QueryEventFilterSixteenToTwentyThree"), ("dali.device.general", "QueryInputValue"),
+    ("dali.device.general", "QueryInputValueLatch"), ("dali.device.general", "QueryNumberOfInstances"),
+    ("dali.gear.emergency", "QueryLampEmergencyTime"), ("dali.gear.emergency", "QueryLampTotalOperationTime"),
+]
+
+
+def association_case(case):
+    """The answer 255 of a given COMMAND (not of a response class): MASK where the standard says so,
+    the integer 255 where it is an ordinary number."""
+    import importlib
+    command, frame, exc = _load()
+    mod = importlib.import_module(case["module"])
+    cmd = getattr(mod, case["command"], None)
+    where = "%s.%s" % (case["module"], case["command"])
+    if cmd is None or getattr(cmd, "response", None) is None:
+        return [("C06:command-response-missing:" + case["command"], "%s has no response class" % where)]
+    out = []
+    for v in (255, 254, 0):
+        try:
+            val = cmd.response(frame.BackwardFrame(v)).value
+        except Exception as e:  # noqa
+            val = "raised %r" % (e,)
+        exp = "MASK" if (case["mask"] and v == 255) else v
+        if val != exp or (exp != "MASK" and (not isinstance(val, int) or isinstance(val, bool))):
+            out.append(("C06:answer-255-of-command:" + case["command"],
+                        "%s answered %d: value %r, expected %r" % (where, v, val, exp)))
+    return out
+
+
+def _assoc_shard(_):
+    res = Result()
+    res.exhaustive = True
+    for lst, mask in ((MASK_AWARE, True), (PLAIN_NUMBER, False)):
+        for m, c in lst:
+            case = {"op": "association", "module": m, "command": c, "mask": mask}
+            res.count()
+            res.nontrivial()
+            res.label("association:" + ("MASK" if mask else "plain-number"))
+            for sig, msg in run_case(case):
+                res.violation(sig, case, msg)
+    res.sample({"op": "association", "module": "dali.gear.general", "command": "QueryPowerOnLevel", "mask": True},
+               cls="association")
+    return res
+
+
 def _shard(arg):
+    if arg is None:
+        return _assoc_shard(arg)
     name = arg
     res = Result()
     res.exhaustive = True
@@ -287,5 +374,5 @@ def _shard(arg):
 
 def run(ctx):
     names = list(response_classes())
-    ctx.pmap(_shard, names)
+    ctx.pmap(_shard, names + [None])
     ctx.result.extra["response_classes"] = len(names)
